@@ -2,10 +2,30 @@
 
 use alloc::{Allocator, SliceWrapper};
 use core::mem;
+#[cfg(not(brotli_verif))]
 use std;
 // in-place thread create
+#[cfg(not(brotli_verif))]
 use std::sync::RwLock;
+#[cfg(not(brotli_verif))]
 use std::sync::{Arc, Condvar, Mutex};
+// verification hook: under cfg(brotli_verif) the primitives come from the scheduler shim
+// (enc/verif_sync.rs), which falls through to std unless a harness attaches a controller
+#[cfg(brotli_verif)]
+#[allow(unused_imports)]
+mod std {
+    pub use ::std::*;
+    pub mod sync {
+        pub use crate::enc::verif_sync::{Condvar, Mutex};
+        pub use ::std::sync::*;
+    }
+    pub mod thread {
+        pub use crate::enc::verif_sync::{spawn, JoinHandle};
+        pub use ::std::thread::*;
+    }
+}
+#[cfg(brotli_verif)]
+use self::std::sync::{Arc, Condvar, Mutex, RwLock};
 
 use crate::enc::backward_references::UnionHasher;
 use crate::enc::fixed_queue::{FixedQueue, MAX_THREADS};
@@ -64,6 +84,24 @@ impl<
             shutdown: false,
             cur_work_id: 0,
         }
+    }
+}
+
+#[cfg(brotli_verif)]
+impl<
+        ReturnValue: Send + 'static,
+        ExtraInput: Send + 'static,
+        Alloc: BrotliAlloc + Send + 'static,
+        U: Send + 'static + Sync,
+    > crate::enc::verif_sync::Observe for WorkQueue<ReturnValue, ExtraInput, Alloc, U>
+{
+    fn verif_observe(&self) -> [u64; 4] {
+        [
+            self.jobs.size() as u64,
+            self.results.size() as u64,
+            self.num_in_progress as u64,
+            self.cur_work_id,
+        ]
     }
 }
 
